@@ -92,3 +92,6 @@ Example C13_example :
   map fst (snd (mrun [] [e1; e2; e3])) = [kv_ResultCodeSuccess; kv_ResultCodeVersionMismatch; kv_ResultCodeSuccess]
   /\ fst (mrun [] [e1; e2]) = [([47; 97], ([1], 5))] /\ sorted (fst (mrun [] [e1; e2])).
 Proof. repeat split. repeat constructor. Qed.
+
+(* every remaining property theorem of this file *)
+Print Assumptions C13_absent_match.
